@@ -137,6 +137,22 @@ def make_world(objects=None, scenario="scenario1_small", use_firewall=True, seed
     return w
 
 
+def world_step(w, view, action, agent=0):
+    """One action through the world's public entry point `step(agent_id, view, action)` (what the coordinator calls),
+    not through the private `_execute_action`: bookkeeping that step() does around the action is part of what is checked."""
+    coro = w.step(("127.0.0.1", 40000 + agent), view, action)
+    try:
+        coro.send(None)
+    except StopIteration as e:      # the usual case: nothing inside really waits
+        return e.value
+    coro.close()
+    loop = asyncio.new_event_loop()
+    try:
+        return loop.run_until_complete(w.step(("127.0.0.1", 40000 + agent), view, action))
+    finally:
+        loop.close()
+
+
 def world_reset(w):
     loop = asyncio.new_event_loop()
     try:
